@@ -4,8 +4,11 @@ func init() {
 	propExtras["C08"] = func(cc *CheckCtx) {
 		cc.runBounded(BoundedSpec{Name: "frontend-total", PkgDir: "parser", File: "c08_parser_test.go", Test: "TestVerifBoundedFrontEndTotal", TimeoutS: 300,
 			Contract: "ParseProgram/PrettyPrint totality: no panic; errors, continuation or a printable tree, in file and line mode"})
+		cc.auditDynLike()
 		cc.Assume = append(cc.Assume,
-			"C08: the lexer part (all of lexer/lexer.go: bounds, termination, no panic, for every byte string) and parser.ErrorLine are proved; the recursive-descent parser and the printer are covered only by the bounded evaluation",
-			"C08: stack depth of the recursive-descent parser on deeply nested input is not decided (see C09)")
+			"C08: proved for every input: the lexer (all of lexer/lexer.go: bounds, termination, no panic) and the parser (every function of parser/parser.go: no nil dereference, index, nil-map, nil-function or type-assertion panic, the explicit panic in parseComment unreachable, under the parser invariant wfP established by New); the printer (ast PrettyPrint) is covered only by the bounded evaluation",
+			"C08: termination of the recursive-descent parser is not proved (each recursion consumes input or ends, argued informally); stack depth on deeply nested input is not decided (see C09)",
+			"C08: calls through the three parse tables are verified as calls of stand-ins that dispatch the same table (audit.table.*); the token tables invariant (token.tablesOK, token.byTypeOK) is assumed to be established by token.Init at package initialisation",
+			"C08: every AST node handed to okParamList carries a token (assumed contract of ast.Node.Value); New is given a lexer built by lexer.New/NewBytes/NewLineMode (lexer fields are unexported, every lexer method preserves wf)")
 	}
 }
